@@ -41,7 +41,7 @@ SLOTS_THOROUGH = {
     "depth": [0, 1, 2, 3],
     "ratedep": [0, 1],
     "coef": ["num", "frac", "pname", "pcomp", "scomp", "dcomp", "tcomp"],
-    "surr": ["none", "flux", "flux+var", "argderived", "poly"],
+    "surr": ["none", "flux", "flux+var", "argderived", "poly", "custom"],
     "data": [0, 1],
     "time": ["none", "rate", "derived"],
     "untouched": ["absent", "first", "last"],
@@ -55,7 +55,7 @@ SLOTS_QUICK = {
     "depth": [0, 3],
     "ratedep": [0, 1],
     "coef": ["num", "frac", "pname", "pcomp", "scomp", "dcomp", "tcomp"],
-    "surr": ["none", "flux+var", "argderived", "poly"],
+    "surr": ["none", "flux+var", "argderived", "poly", "custom"],
     "data": [0, 1],
     "time": ["none", "derived"],
     "untouched": ["absent", "last"],
@@ -157,7 +157,7 @@ def make_spec(f):
             s_args = ["x"]
             poly = [0.5, 0.3, 0.25]
             exprs = [["add", ["add", V(0.5), ["mul", V(0.3), N("x")]], ["mul", V(0.25), ["mul", N("x"), N("x")]]]]
-        if f["surr"] in ("flux+var", "argderived"):
+        if f["surr"] in ("flux+var", "argderived", "custom"):
             outputs.append("sb")
             exprs.append(["mul", N(a0), N(a1)])
         # coefficient of the surrogate flux (a second code path in the cache builder)
@@ -169,7 +169,7 @@ def make_spec(f):
         }[f.get("scoef", "num")]
         decl.append(
             {"kind": "surrogate", "name": "s", "args": s_args, "outputs": outputs, "exprs": exprs,
-             "stoich": {"sa": {"z": sc, "x": 2.0}}, **({"poly": poly} if poly else {})}
+             "stoich": {"sa": {"z": sc, "x": 2.0}}, **({"poly": poly} if poly else {}), **({"custom": True} if f["surr"] == "custom" else {})}
         )
         if "sb" in outputs:
             der("ds", ["sb", "k1"], ["add", N("sb"), N("k1")])
